@@ -429,6 +429,33 @@ pub fn worker(w: &mut Worker) {
         let nt = !t.is_ascii() || t.contains('\0');
         run!(json!({"kind": "text", "text": t}), nt, ("text", t.len()), text_roundtrip(&mut s, &t));
     }
+    // the wide one-character alphabet (util::wide_chars) and every control character, through every
+    // round trip: as a text, as a JSON string / key / array item, as a properties key and value
+    {
+        let mut chars = wide_chars();
+        chars.extend((0u32..0x20).chain([0x7f, 0x80, 0x9f, 0xd7ff, 0xe000, 0xfffd, 0xffff, 0x10000, 0x10ffff]).filter_map(char::from_u32));
+        chars.sort();
+        chars.dedup();
+        for c in chars {
+            for t in [c.to_string(), format!("a{}b", c), format!("{}{}", c, c)] {
+                if w.take() {
+                    run!(json!({"kind": "text", "text": t}), true, ("text-wide", t.len()), text_roundtrip(&mut s, &t));
+                }
+                for d in [json!(t), json!([t, "x"]), json!({t.clone(): "v"}), json!({"k": {t.clone(): [t.clone()]}})] {
+                    // keys with a dot or brackets are covered by the key pool; here the character is the point
+                    if w.take() {
+                        run!(json!({"kind": "json", "doc": d.to_string()}), true, ("json-wide", d.is_array(), d.is_object()), json_roundtrip(&mut s, &d));
+                    }
+                }
+                for e in [vec![(t.clone(), "v".to_string())], vec![("k".to_string(), t.clone())], vec![(t.clone(), t.clone())], vec![(format!("k{}", t), "1".to_string()), ("k".to_string(), format!("{}2", t))]] {
+                    if w.take() {
+                        let ej: Vec<Value> = e.iter().map(|(k, v)| json!([k, v])).collect();
+                        run!(json!({"kind": "props", "entries": ej}), true, ("props-wide", class_of(&e)), props_roundtrip(&mut s, &e));
+                    }
+                }
+            }
+        }
+    }
     // integers
     let hi = tier.pick(65535u64, 1 << 24);
     let mut ints: Vec<u64> = (0..=hi).collect();
